@@ -305,10 +305,26 @@ trait BoolExt: BooleanFunction + Clone + Eq + Ord + Hash + Send + 'static {
         None
     }
     fn fmt_term<'id>(t: &<Self::Manager<'id> as Manager>::Terminal) -> String;
+    /// DDDMP export (ASCII, or binary where supported) of the given roots into a buffer: its length
+    fn export_len(_mref: &Self::ManagerRef, _roots: &[&Self], _ascii: bool) -> Option<Result<usize, String>> {
+        None
+    }
     /// a fresh manager of this kind (BIGORDER); `None` = not supported
     fn new_mgr(_cap: usize, _cache: usize, _threads: u32) -> Option<Self::ManagerRef> {
         None
     }
+}
+
+macro_rules! impl_export_ext {
+    () => {
+        fn export_len(mref: &Self::ManagerRef, roots: &[&Self], ascii: bool) -> Option<Result<usize, String>> {
+            let mut buf: Vec<u8> = Vec::new();
+            let st = oxidd_dump::dddmp::ExportSettings::default().diagram_name("d");
+            let st = if ascii { st.ascii() } else { st.binary() };
+            let r = mref.with_manager_shared(|m| st.export(&mut buf, m, roots.iter().copied()));
+            Some(r.map(|()| buf.len()).map_err(|e| format!("{:?}", e.kind())))
+        }
+    };
 }
 
 macro_rules! impl_quant_ext {
@@ -337,6 +353,7 @@ macro_rules! impl_quant_ext {
 
 impl BoolExt for oxidd::bdd::BDDFunction {
     impl_quant_ext!(oxidd::bdd::BDDFunction);
+    impl_export_ext!();
     fn new_mgr(cap: usize, cache: usize, threads: u32) -> Option<Self::ManagerRef> {
         Some(oxidd::bdd::new_manager(cap, cache, threads))
     }
@@ -346,6 +363,7 @@ impl BoolExt for oxidd::bdd::BDDFunction {
 }
 impl BoolExt for oxidd::bcdd::BCDDFunction {
     impl_quant_ext!(oxidd::bcdd::BCDDFunction);
+    impl_export_ext!();
     fn new_mgr(cap: usize, cache: usize, threads: u32) -> Option<Self::ManagerRef> {
         Some(oxidd::bcdd::new_manager(cap, cache, threads))
     }
@@ -354,6 +372,7 @@ impl BoolExt for oxidd::bcdd::BCDDFunction {
     }
 }
 impl BoolExt for oxidd::zbdd::ZBDDFunction {
+    impl_export_ext!();
     fn setop(mref: &Self::ManagerRef, op: &str, a: Option<&Self>, b: Option<&Self>, v: VarNo) -> Option<AllocResult<Self>> {
         Some(match op {
             "SINGLETON" => mref.with_manager_shared(|m| Self::singleton(m, v)),
@@ -559,6 +578,19 @@ where
                 let vars = self.cube(pos, neg)?;
                 let r = oom(self.get(tok[2])?.restrict(&vars))?;
                 Ok(put(self, tok[1], r))
+            }
+            "EXPORT" => {
+                // EXPORT a|b <handles...> : DDDMP export of the listed handles (shared nodes are visited repeatedly)
+                let ascii = tok[1] == "a";
+                let mut roots: Vec<&F> = Vec::new();
+                for t in &tok[2..] {
+                    roots.push(self.get(t)?);
+                }
+                match F::export_len(&self.core.mref, &roots, ascii) {
+                    Some(Ok(n)) => Ok(format!("exported {}", (n > 0) as u8)),
+                    Some(Err(e)) => Ok(format!("experr {e}")),
+                    None => Err("skip".into()),
+                }
             }
             "RESTRICTH" => {
                 // RESTRICTH dst a c : the literal cube is the function of handle c (kept across VARS / GC / ORDER)
